@@ -141,6 +141,24 @@ Theorem C12_certified_rule_exact : forall (E F : Z) (d : nat) (en ed : Z) (xs ws
     <= IZR en / IZR ed * Rabs (tr_u a b) * scale_cmod cs (tr_M a b).
 Proof. exact certified_rule_exact. Qed.
 
+(* ---- the gauss-quad adapter of Integrator::GaussLegendre (hand model, tied by rule extraction), for ANY table *)
+Theorem C12_gl_adapter_exact : forall (table : Z -> rule Rops) (degree : Z) (d : nat) (eps : R),
+  (forall k, (k <= d)%nat -> Rabs (moment (table (gl_points degree)) k - leg_moment k) <= eps) ->
+  forall (a b : R) (cs : list C), (length cs <= S d)%nat ->
+  Cmod (Cminus (integrate_GaussLegendre Rops table (cpeval Rops cs) a b degree) (cpint Rops cs a b))
+    <= eps * Rabs (tr_u a b) * scale_cmod cs (tr_M a b).
+Proof. exact gl_adapter_exact. Qed.
+
+Theorem C12_gl_adapter_linear : forall (table : Z -> rule Rops) (degree : Z) (alpha beta : C) (f g : R -> C) (a b : R),
+  integrate_GaussLegendre Rops table (fun x => Cplus (Cmult alpha (f x)) (Cmult beta (g x))) a b degree =
+  Cplus (Cmult alpha (integrate_GaussLegendre Rops table f a b degree)) (Cmult beta (integrate_GaussLegendre Rops table g a b degree)).
+Proof. exact gl_adapter_linear. Qed.
+
+Theorem C12_gl_adapter_2d_separable : forall (table : Z -> rule Rops) (degree : Z) (p q : R -> C) (a b c d : R),
+  integrate2d_GaussLegendre Rops table (fun x y => Cmult (p x) (q y)) a b c d degree =
+  Cmult (integrate_GaussLegendre Rops table p a b degree) (integrate_GaussLegendre Rops table q c d degree).
+Proof. exact gl_adapter_2d_separable. Qed.
+
 (* ---- adaptive Simpson *)
 Theorem C12_adaptive_cubic_exact : forall (cs : list C) (a b eps : R) d, a <= b -> (length cs <= 4)%nat ->
   simpson_adaptive Rops (cpeval Rops cs) a b eps d = cpint Rops cs a b.
@@ -230,6 +248,9 @@ Print Assumptions C12_rule_certificate_transfer.
 Print Assumptions C12_transfer_scale.
 Print Assumptions C12_rule_certificate_reverse.
 Print Assumptions C12_certified_rule_exact.
+Print Assumptions C12_gl_adapter_exact.
+Print Assumptions C12_gl_adapter_linear.
+Print Assumptions C12_gl_adapter_2d_separable.
 Print Assumptions C12_adaptive_cubic_exact.
 Print Assumptions C12_adaptive_richardson_quintic.
 Print Assumptions C12_adaptive_accepted_error.
